@@ -456,8 +456,8 @@ func rebuild(vt, init string, hist [][]string) (m mapUnderTest, panicked bool) {
 	return m, panicked
 }
 
-func restoreEvent(tw *traceWriter, m mapUnderTest, panicked bool, want obj) {
-	ev := obj{"op": "restore", "want": want, "panic": panicked}
+func restoreEvent(tw *traceWriter, m mapUnderTest, panicked bool, want obj, init, vt string, hist [][]string) {
+	ev := obj{"op": "restore", "want": want, "panic": panicked, "init": init, "vt": vt, "hist": hist}
 	if panicked {
 		ev["got"] = obj{"nil": false, "kv": []any{}}
 	} else {
@@ -485,6 +485,8 @@ func runC05(args []string) {
 		c05Trans(tw, fl, seed, sum)
 	case "random":
 		c05Random(tw, fl, seed, sum)
+	case "steps":
+		c05Steps(tw, fl, seed)
 	default:
 		fatal("c05: unknown mode %s", mode)
 	}
@@ -569,7 +571,7 @@ func c05Trans(tw *traceWriter, fl flags, seed int64, sum obj) {
 				continue // documented to panic like Go's map: outside the property
 			}
 			m2, pan := rebuild(vt, init, hist)
-			restoreEvent(tw, m2, pan, want)
+			restoreEvent(tw, m2, pan, want, init, vt, hist)
 			if pan {
 				continue
 			}
@@ -581,7 +583,7 @@ func c05Trans(tw *traceWriter, fl flags, seed int64, sum obj) {
 		if init != "nil" {
 			for _, fn := range fns {
 				m2, pan := rebuild(vt, init, hist)
-				restoreEvent(tw, m2, pan, want)
+				restoreEvent(tw, m2, pan, want, init, vt, hist)
 				if pan {
 					continue
 				}
@@ -728,4 +730,54 @@ func c05Random(tw *traceWriter, fl flags, seed int64, sum obj) {
 		}
 	}
 	sum["histories"], sum["ops"], sum["compactions_crossed"], sum["samples"] = nhist, totalOps, compactions, samples
+}
+
+// c05Steps replays explicit step lists (used by --replay and by the
+// confirmation re-run of every rejected event).
+func c05Steps(tw *traceWriter, fl flags, seed int64) {
+	rng := newRand(seed, "c05steps")
+	readNDJSON(fl.str("cases", ""), func(n int, c obj) {
+		init, _ := c["init"].(string)
+		vt, _ := c["vt"].(string)
+		tw.emit(obj{"op": "reset", "init": init, "panic": false, "case": n, "vt": vt})
+		m := newMapUT(vt, init)
+		alpha := map[string]bool{}
+		for _, op := range parseOps(c["prefix"]) {
+			mutEvent(tw, m, op, true)
+			for _, k := range op[1:] {
+				alpha[k] = true
+			}
+		}
+		steps, _ := c["steps"].([]any)
+		for _, st := range steps {
+			l, _ := st.([]any)
+			name, _ := l[0].(string)
+			switch name {
+			case "observe":
+				keys := []string{"zz"}
+				for k := range alpha {
+					keys = append(keys, k)
+				}
+				sort.Strings(keys)
+				if len(keys) > 24 {
+					keys = keys[:24]
+				}
+				observeEvent(tw, m, keys, rng)
+			case "rangerename":
+				fl, _ := l[1].([]any)
+				f := map[string][2]string{}
+				for _, x := range fl {
+					t := strs(x)
+					f[t[0]] = [2]string{t[1], t[2]}
+				}
+				renameEvent(tw, m, f, fl)
+			default:
+				op := strs(st)
+				mutEvent(tw, m, op, true)
+				for _, k := range op[1:] {
+					alpha[k] = true
+				}
+			}
+		}
+	})
 }
